@@ -29,6 +29,17 @@ import sys
 sys.path.insert(0, os.path.dirname(os.path.abspath(__file__)))
 import tr_twoport as T
 from tr_twoport import Untranslatable, fail
+T.SCALAR_WRAPPERS.update({'LaplaceDomainCurrent', 'LaplaceDomainVoltage'})
+_prev_coq = T.Translator.coq
+
+
+def _coq_param(self, ir, selfname='m'):
+    if ir[0] == 'param':
+        return 'p_' + ir[1]
+    return _prev_coq(self, ir, selfname)
+
+
+T.Translator.coq = _coq_param
 
 CTORS = ['Zseries', 'Yseries', 'Yshunt', 'Zshunt', 'transformer', 'gyrator', 'Lsection', 'Tsection', 'Pisection']
 CTOR_KINDS = {'A': CTORS, 'B': CTORS, 'Z': ['Tsection', 'Pisection', 'Lsection']}
@@ -212,6 +223,8 @@ class SectionTranslator:
         """OP.Z.laplace() / OP.Y.laplace() / OP.Voc.laplace() / OP.Isc.laplace() / 0 (through identity wrappers)"""
         while isinstance(e, ast.Call) and isinstance(e.func, ast.Name) and e.func.id in IDENT and len(e.args) == 1:
             e = e.args[0]
+        if isinstance(e, ast.UnaryOp) and isinstance(e.op, ast.USub):
+            return ('neg', self.op_atom(e.operand, opname))
         u = ast.unparse(e)
         for q in ('Z', 'Y', 'Voc', 'Isc'):
             if u == '%s.%s.laplace()' % (opname, q):
@@ -387,7 +400,16 @@ class SectionTranslator:
                 fail(fn, 'unsupported parameter accumulation in %s.__init__' % cname)
             if 'arg = args[0]' not in [ast.unparse(s) for s in nodoc(fn.body)]:
                 fail(fn, 'first argument not taken from args[0]')
-            self.sums[cname] = {'kind': kind, 'line': fn.lineno}
+            # the two source entries are accumulated the same way and handed to the model constructor
+            own = self.SRC_OWN[kind]
+            kws = {k.arg: ast.unparse(k.value) for k in call.keywords}
+            u_all = [ast.unparse(s_) for s_ in nodoc(fn.body)]
+            loop_u = []
+            for st in nodoc(fn.body):
+                if isinstance(st, ast.For):
+                    loop_u = [ast.unparse(x) for x in st.body]
+            src_ok = all(('%s = arg.%s' % (o, o)) in u_all and ('%s += arg.%s' % (o, o)) in loop_u and kws.get(o) == o for o in own)
+            self.sums[cname] = {'kind': kind, 'line': fn.lineno, 'src_ok': src_ok}
 
     # ---- (5) compound sections -----------------------------------------------------------
     def tp_expr(self, e, params):
@@ -442,12 +464,93 @@ class SectionTranslator:
                 fail(fn, 'unsupported ladder constructor')
             self.ladders[cname] = {'first': first, 'odd': odd, 'even': even, 'line': fn.lineno}
 
+
+    # ---- (6) source-vector conversions of the two-port model classes ------------------------
+    SRC_OWN = {'B': ('V2b', 'I2b'), 'A': ('V1a', 'I1a'), 'G': ('I1g', 'V2g'), 'H': ('V1h', 'I2h'), 'Y': ('I1y', 'I2y'), 'Z': ('V1z', 'V2z')}
+    SRC_TARGETS = {'B': ['V1a', 'I1a', 'I1g', 'V2g', 'V1h', 'I2h', 'I1y', 'I2y', 'V1z', 'V2z'],
+                   'A': ['V2b', 'I2b'], 'G': ['V2b', 'I2b'], 'H': ['V2b', 'I2b'], 'Y': ['V2b', 'I2b'], 'Z': ['V2b', 'I2b', 'I1y', 'I2y']}
+
+    def src_method(self, cname, prop):
+        if cname in self.classes:
+            for n in self.classes[cname].body:
+                if isinstance(n, ast.FunctionDef) and n.name == prop:
+                    return n
+        return None
+
+    def lower_src(self, kind, fn):
+        """one source property of a two-port model whose own parameter set is `kind`:
+        scalar expression over the entries of its matrix and its own two sources"""
+        own = self.SRC_OWN[kind]
+
+        class Tr(ast.NodeTransformer):
+            def visit_Attribute(self, node):
+                self.generic_visit(node)
+                if isinstance(node.value, ast.Name) and node.value.id == 'self' and node.attr.lstrip('_') in own:
+                    return ast.copy_location(ast.Name(id='p_' + node.attr.lstrip('_'), ctx=ast.Load()), node)
+                return node
+        import copy
+        fn2 = copy.deepcopy(fn)
+        body = []
+        for st in nodoc(fn2.body):
+            # "avoid the matrix inverse" short cut of TwoPortAModel: both own sources zero -> return one of them (0)
+            if isinstance(st, ast.If) and not st.orelse and len(st.body) == 1 and isinstance(st.body[0], ast.Return):
+                t = ast.unparse(st.test)
+                r = ast.unparse(st.body[0].value)
+                if t == 'self.%s == 0 and self.%s == 0' % own and r in ('self.' + own[0], 'self.' + own[1]):
+                    continue
+            body.append(Tr().visit(st))
+        fn2.body = body
+        fn2.decorator_list = fn.decorator_list
+        env_names = {'p_' + o: (('S',), ('param', o)) for o in own}
+        # tr_twoport.lower_fn has no hook for an initial environment: wrap the statements
+        tr = self.tr
+        env = dict(env_names)
+        result = None
+        for st in fn2.body:
+            if isinstance(st, ast.Assign) and len(st.targets) == 1 and isinstance(st.targets[0], ast.Name):
+                env[st.targets[0].id] = tr.lower(kind, st.value, env)
+                continue
+            if isinstance(st, ast.Return):
+                result = tr.lower(kind, st.value, env)
+                continue
+            fail(st, 'unsupported statement in source property')
+        if result is None or result[0] != ('S',):
+            fail(fn, 'source property does not return a scalar')
+        return result[1]
+
+    def translate_srcconv(self):
+        self.srcconv = {}       # (owner class, kind, prop) -> ir
+        self.srcconv_err = {}
+        for kind, props in self.SRC_TARGETS.items():
+            owners = ['TwoPort%sModel' % kind] + (['TwoPort'] if kind == 'B' else [])
+            for prop in props:
+                found = False
+                for owner in owners:
+                    fn = self.src_method(owner, prop)
+                    if fn is None:
+                        continue
+                    found = True
+                    try:
+                        self.srcconv[(owner, kind, prop)] = self.lower_src(kind, fn)
+                    except Untranslatable as ex:
+                        self.srcconv_err[(owner, kind, prop)] = str(ex)
+                if not found:
+                    self.srcconv_err[(owners[0], kind, prop)] = 'not defined'
+        # which definition a TwoPortBModel instance uses (MRO: TwoPortBModel, then TwoPort)
+        self.src_B = {}
+        for prop in self.SRC_TARGETS['B']:
+            for owner in ('TwoPortBModel', 'TwoPort'):
+                if (owner, 'B', prop) in self.srcconv:
+                    self.src_B[prop] = owner
+                    break
+
     def translate_all(self):
         self.translate_ctors()
         self.translate_elems()
         self.translate_chain()
         self.translate_sums()
         self.translate_sections()
+        self.translate_srcconv()
         return self
 
     # ---- Coq ----------------------------------------------------------------------------
@@ -507,6 +610,12 @@ class SectionTranslator:
             o.append('Definition tp_%s (Z0 : K) (o1 : opd K) (args : list (opd K)) : tpm K :=\n'
                      '  ladder_fold tp_Chain (tp_%s Z0) (tp_%s Z0) (tp_%s Z0 o1) args 0.\n' % (cname, d['odd'], d['even'], d['first']))
             names.append('tp_' + cname)
+        for (owner, kind, prop), ir in sorted(self.srcconv.items()):
+            own = self.SRC_OWN[kind]
+            nm = 'src_%s_%s' % (owner, prop)
+            o.append('(* %s.%s *)' % (owner, prop))
+            o.append('Definition %s (Z0 : K) (m : mat K) (p_%s p_%s : K) : K :=\n  %s.\n' % (nm, own[0], own[1], self.tr.coq(ir)))
+            names.append(nm)
         o.append('End GenS.\n')
         for nm in names:
             o.append('Arguments %s {K}.' % nm)
